@@ -597,3 +597,153 @@ theorem trace_conj1 (D : Nat) (mat matc : Nat → Nat → K) (m : Nat)
 end local1
 
 end SFV.Fock
+
+/-! ### locality for two-mode operators in the mixed representation -/
+namespace SFV.Fock
+open Finset
+
+section local2
+variable {K : Type} [CommSemiring K]
+
+/-- the algebraic heart of locality: `Σ_v Σ_b Σ_a conj U[v,b]·(U[v,a]·R[a,b]) = Σ_v R[v,v]` for an
+isometry `U` over any finite index set -/
+theorem trace_generic {ι : Type} [DecidableEq ι] (P : Finset ι) (U Uc R : ι → ι → K)
+    (hiso : ∀ a ∈ P, ∀ b ∈ P, (∑ v ∈ P, U v a * Uc v b) = if a = b then 1 else 0) :
+    (∑ v ∈ P, ∑ b ∈ P, ∑ a ∈ P, Uc v b * (U v a * R a b)) = ∑ v ∈ P, R v v := by
+  rw [Finset.sum_comm]
+  refine Finset.sum_congr rfl fun b hb => ?_
+  rw [Finset.sum_comm]
+  have inner : ∀ a ∈ P, (∑ v ∈ P, Uc v b * (U v a * R a b)) = (if a = b then 1 else 0) * R a b := by
+    intro a ha
+    rw [← hiso a ha b hb, Finset.sum_mul]
+    refine Finset.sum_congr rfl fun v _ => ?_
+    ring
+  rw [Finset.sum_congr rfl inner]
+  simp [Finset.sum_ite_eq', hb]
+
+/-- entry of `U ρ U†` for a two-mode operator on modes `m1 ≠ m2` -/
+theorem conj2_entry (D : Nat) (mat matc : Nat → Nat → Nat → Nat → K) (m1 m2 : Nat) (h12 : m1 ≠ m2)
+    (ρ : Tens K) (idx : Idx) :
+    applyAt2 D matc (2 * m1 + 1) (2 * m2 + 1) (applyAt2 D mat (2 * m1) (2 * m2) ρ) idx =
+      ∑ b1 ∈ range D, ∑ b2 ∈ range D, ∑ a1 ∈ range D, ∑ a2 ∈ range D,
+        matc (idx (2 * m1 + 1)) b1 (idx (2 * m2 + 1)) b2 *
+          (mat (idx (2 * m1)) a1 (idx (2 * m2)) a2 *
+            ρ (upd (upd (upd (upd idx (2 * m1) a1) (2 * m2) a2) (2 * m1 + 1) b1) (2 * m2 + 1) b2)) := by
+  simp only [applyAt2, sumTo_eq_sum]
+  refine Finset.sum_congr rfl fun b1 _ => Finset.sum_congr rfl fun b2 _ => ?_
+  rw [Finset.mul_sum]
+  refine Finset.sum_congr rfl fun a1 _ => ?_
+  rw [Finset.mul_sum]
+  refine Finset.sum_congr rfl fun a2 _ => ?_
+  have e1 : upd (upd idx (2 * m1 + 1) b1) (2 * m2 + 1) b2 (2 * m1) = idx (2 * m1) := by
+    simp only [upd]; rw [if_neg (by omega), if_neg (by omega)]
+  have e2 : upd (upd idx (2 * m1 + 1) b1) (2 * m2 + 1) b2 (2 * m2) = idx (2 * m2) := by
+    simp only [upd]; rw [if_neg (by omega), if_neg (by omega)]
+  have e3 : upd (upd (upd (upd idx (2 * m1 + 1) b1) (2 * m2 + 1) b2) (2 * m1) a1) (2 * m2) a2 =
+      upd (upd (upd (upd idx (2 * m1) a1) (2 * m2) a2) (2 * m1 + 1) b1) (2 * m2 + 1) b2 := by
+    funext x
+    simp only [upd]
+    by_cases h1 : x = 2 * m2 <;> by_cases h2 : x = 2 * m1 <;> by_cases h3 : x = 2 * m2 + 1 <;>
+      by_cases h4 : x = 2 * m1 + 1 <;> simp [h1, h2, h3, h4] <;> omega
+  rw [e1, e2, e3]
+
+/-- the index with the row and column axes of modes `m1`, `m2` set to `(v1, v2)` -/
+def diag2 (idx : Idx) (m1 m2 v1 v2 : Nat) : Idx :=
+  upd (upd (upd (upd idx (2 * m1) v1) (2 * m2) v2) (2 * m1 + 1) v1) (2 * m2 + 1) v2
+
+/-- **locality, two-mode version**: an isometric two-mode matrix leaves the state traced over its
+two targets unchanged — for every pair of distinct positions and every index of the other modes -/
+theorem trace_conj2 (D : Nat) (mat matc : Nat → Nat → Nat → Nat → K) (m1 m2 : Nat) (h12 : m1 ≠ m2)
+    (hiso : ∀ a b : Nat × Nat, a ∈ range D ×ˢ range D → b ∈ range D ×ˢ range D →
+      (∑ v ∈ range D ×ˢ range D, mat v.1 a.1 v.2 a.2 * matc v.1 b.1 v.2 b.2) = if a = b then 1 else 0)
+    (ρ : Tens K) (idx : Idx) :
+    (∑ v ∈ range D ×ˢ range D,
+      applyAt2 D matc (2 * m1 + 1) (2 * m2 + 1) (applyAt2 D mat (2 * m1) (2 * m2) ρ) (diag2 idx m1 m2 v.1 v.2)) =
+      ∑ v ∈ range D ×ˢ range D, ρ (diag2 idx m1 m2 v.1 v.2) := by
+  set R : Nat × Nat → Nat × Nat → K := fun a b =>
+    ρ (upd (upd (upd (upd idx (2 * m1) a.1) (2 * m2) a.2) (2 * m1 + 1) b.1) (2 * m2 + 1) b.2) with hR
+  have key : ∀ v1 v2 a1 a2 b1 b2,
+      upd (upd (upd (upd (diag2 idx m1 m2 v1 v2) (2 * m1) a1) (2 * m2) a2) (2 * m1 + 1) b1) (2 * m2 + 1) b2
+      = upd (upd (upd (upd idx (2 * m1) a1) (2 * m2) a2) (2 * m1 + 1) b1) (2 * m2 + 1) b2 := by
+    intro v1 v2 a1 a2 b1 b2
+    funext x
+    simp only [upd, diag2]
+    by_cases h1 : x = 2 * m2 <;> by_cases h2 : x = 2 * m1 <;> by_cases h3 : x = 2 * m2 + 1 <;>
+      by_cases h4 : x = 2 * m1 + 1 <;> simp [h1, h2, h3, h4]
+  have q1 : ∀ v1 v2, diag2 idx m1 m2 v1 v2 (2 * m1 + 1) = v1 := by
+    intro v1 v2; simp only [diag2, upd]; split_ifs <;> first | rfl | (exfalso; omega)
+  have q2 : ∀ v1 v2, diag2 idx m1 m2 v1 v2 (2 * m2 + 1) = v2 := by
+    intro v1 v2; simp only [diag2, upd]; split_ifs <;> first | rfl | (exfalso; omega)
+  have q3 : ∀ v1 v2, diag2 idx m1 m2 v1 v2 (2 * m1) = v1 := by
+    intro v1 v2; simp only [diag2, upd]; split_ifs <;> first | rfl | (exfalso; omega)
+  have q4 : ∀ v1 v2, diag2 idx m1 m2 v1 v2 (2 * m2) = v2 := by
+    intro v1 v2; simp only [diag2, upd]; split_ifs <;> first | rfl | (exfalso; omega)
+  have lhs : ∀ v : Nat × Nat,
+      applyAt2 D matc (2 * m1 + 1) (2 * m2 + 1) (applyAt2 D mat (2 * m1) (2 * m2) ρ) (diag2 idx m1 m2 v.1 v.2) =
+      ∑ b ∈ range D ×ˢ range D, ∑ a ∈ range D ×ˢ range D,
+        matc v.1 b.1 v.2 b.2 * (mat v.1 a.1 v.2 a.2 * R a b) := by
+    intro v
+    rw [conj2_entry D mat matc m1 m2 h12, Finset.sum_product]
+    refine Finset.sum_congr rfl fun b1 _ => Finset.sum_congr rfl fun b2 _ => ?_
+    rw [Finset.sum_product]
+    refine Finset.sum_congr rfl fun a1 _ => Finset.sum_congr rfl fun a2 _ => ?_
+    simp only [q1, q2, q3, q4, key, hR]
+  have rhs : ∀ v : Nat × Nat, ρ (diag2 idx m1 m2 v.1 v.2) = R v v := by
+    intro v; rfl
+  simp only [lhs, rhs]
+  exact trace_generic (range D ×ˢ range D) (fun v a => mat v.1 a.1 v.2 a.2) (fun v b => matc v.1 b.1 v.2 b.2) R
+    (fun a ha b hb => hiso a b ha hb)
+
+end local2
+end SFV.Fock
+
+/-! ### Hermiticity is preserved by `ρ ↦ U ρ U†` (C07) -/
+namespace SFV.Fock
+open Finset
+
+section herm
+variable {K : Type} [CommSemiring K]
+
+/-- exchange the row and column axis of every mode -/
+def flipAx (a : Nat) : Nat := if a % 2 = 0 then a + 1 else a - 1
+
+/-- `ρ` is Hermitian w.r.t. the conjugation `cj`: `ρ[j₀,i₀,j₁,i₁,…] = conj ρ[i₀,j₀,i₁,j₁,…]` -/
+def Herm (cj : K →+* K) (ρ : Tens K) : Prop := ∀ idx, ρ (fun a => idx (flipAx a)) = cj (ρ idx)
+
+theorem flipAx_even (m : Nat) : flipAx (2 * m) = 2 * m + 1 := by unfold flipAx; rw [if_pos (by omega)]
+theorem flipAx_odd (m : Nat) : flipAx (2 * m + 1) = 2 * m := by unfold flipAx; rw [if_neg (by omega)]; omega
+theorem flipAx_flipAx (a : Nat) : flipAx (flipAx a) = a := by
+  unfold flipAx; split <;> split <;> omega
+
+theorem flip_upd2 (idx : Idx) (m a b : Nat) :
+    (fun x => upd (upd idx (2 * m) b) (2 * m + 1) a (flipAx x)) =
+      upd (upd (fun x => idx (flipAx x)) (2 * m) a) (2 * m + 1) b := by
+  funext x
+  simp only [upd]
+  by_cases h1 : x = 2 * m + 1
+  · subst h1; rw [flipAx_odd]; simp
+  · by_cases h2 : x = 2 * m
+    · subst h2; rw [flipAx_even]; simp
+    · have e1 : flipAx x ≠ 2 * m + 1 := by
+        intro h; have := congrArg flipAx h; rw [flipAx_flipAx, flipAx_odd] at this; exact h2 this
+      have e2 : flipAx x ≠ 2 * m := by
+        intro h; have := congrArg flipAx h; rw [flipAx_flipAx, flipAx_even] at this; exact h1 this
+      simp [h1, h2, e1, e2]
+
+/-- **Hermiticity is preserved** by a one-mode `ρ ↦ U ρ U†` at any position, for any conjugation
+that is an involutive ring homomorphism -/
+theorem herm_conj1 (cj : K →+* K) (hinv : ∀ x, cj (cj x) = x) (D : Nat) (mat : Nat → Nat → K) (m : Nat)
+    (ρ : Tens K) (hρ : Herm cj ρ) :
+    Herm cj (applyAt1 D (fun v b => cj (mat v b)) (2 * m + 1) (applyAt1 D mat (2 * m) ρ)) := by
+  intro idx
+  rw [conj1_entry, conj1_entry]
+  simp only [flipAx_even, flipAx_odd, map_sum, map_mul, hinv]
+  rw [Finset.sum_comm]
+  refine Finset.sum_congr rfl fun a _ => Finset.sum_congr rfl fun b _ => ?_
+  have := hρ (upd (upd idx (2 * m) b) (2 * m + 1) a)
+  rw [flip_upd2 idx m a b] at this
+  rw [this]
+  ring
+
+end herm
+end SFV.Fock
